@@ -240,7 +240,7 @@ pub fn child_main(a: ChildArgs) -> i32 {
             let script_opt: Option<&[Action]> = if script.is_empty() { None } else { Some(&script) };
             let res = oracle::run_forked(&plan, script_opt, &mut refs);
             *st.runs.entry(stratum.to_string()).or_default() += 1;
-            let violations = oracle::violations_of(&res);
+            let violations = oracle::violations_of(&plan, &mut refs, &res);
             let mut trace: Vec<Action> = vec![];
             match &res {
                 Ok(s) => {
